@@ -30,6 +30,10 @@ class MTRandom(random.Random):
 
     def seed(self, a=None, version=2):
         if hasattr(self, "_ctx"):
+            if a is None:
+                # "seed from the system" would pull OS entropy into the run: substitute a value of the run's own stream
+                a = self._ctx.streams.stream("os_entropy_%d" % self._ctx.counters.get("seed_none", 0)).getrandbits(64)
+                self._ctx.count("seed_none")
             self._ctx.log.emit("seed", who=self._who, v=repr(a))
         random.Random.seed(self, a, version)
 
